@@ -300,6 +300,74 @@ class Ctx:
         self.log.append("go test %s: rc=%d %.1fs" % (run, rc, time.time() - t))
         return rc, out, outdir
 
+    def go_test_parallel(self, run, cases, nproc=8, pkg=".", env=None, timeout=600, name="par", only=None):
+        """Build the harness test binary once (go test -c), deal the lines of the case file `cases`
+        to nproc processes, run them in parallel, and merge their trace.ndjson files into one
+        (trace numbers re-based). Returns (rc, output, merged trace path, [summary dicts])."""
+        import concurrent.futures
+        outdir = os.path.join(self.scratch, "go-" + name)
+        os.makedirs(outdir, exist_ok=True)
+        e = dict(os.environ)
+        e.update(GOENV)
+        binp = os.path.join(outdir, "harness.test")
+        cmd = ["go", "test", "-c", "-o", binp, "-overlay", self.overlay(only), "-tags", "verif", "-vet=off",
+               pkg if pkg.startswith(".") else "./" + pkg]
+        p = subprocess.run(cmd, cwd=REPO, env=e, stdout=subprocess.PIPE, stderr=subprocess.STDOUT, universal_newlines=True)
+        if p.returncode != 0 or not os.path.exists(binp):
+            return 1, "[build failed]\n" + p.stdout, None, []
+        with open(cases) as f:
+            lines = [x for x in f if x.strip()]
+        nproc = max(1, min(nproc, len(lines)))
+        chunks = [lines[k::nproc] for k in range(nproc)]
+
+        def one(k):
+            d = os.path.join(outdir, "p%d" % k)
+            os.makedirs(d, exist_ok=True)
+            cf = os.path.join(d, "cases.ndjson")
+            with open(cf, "w") as f:
+                f.writelines(chunks[k])
+            ee = dict(e)
+            ee.update({"VERIF_OUT": d, "VERIF_SEED": str(self.seed), "VERIF_TIER": self.tier, "VERIF_CASES": cf})
+            ee.update({kk: str(v) for kk, v in (env or {}).items()})
+            try:
+                q = subprocess.run([binp, "-test.run", run, "-test.count=1", "-test.timeout", "%ds" % timeout],
+                                   cwd=os.path.join(REPO, pkg) if pkg != "." else REPO, env=ee, stdout=subprocess.PIPE,
+                                   stderr=subprocess.STDOUT, timeout=timeout + 60, universal_newlines=True, errors="replace")
+                return q.returncode, q.stdout, d
+            except subprocess.TimeoutExpired as ex:
+                return 124, "runner timeout\n" + str(ex.stdout or ""), d
+        with concurrent.futures.ThreadPoolExecutor(max_workers=nproc) as ex:
+            res = list(ex.map(one, range(nproc)))
+        rc = max(r[0] for r in res)
+        out = "\n".join(r[1][-4000:] for r in res if r[0] != 0) or "ok"
+        merged = os.path.join(outdir, "trace.ndjson")
+        base = 0
+        sums = []
+        with open(merged, "w") as mf:
+            for _, _, d in res:
+                tp = os.path.join(d, "trace.ndjson")
+                if not os.path.exists(tp):
+                    continue
+                mx = 0
+                with open(tp) as f:
+                    for line in f:
+                        if '"ev":"end"' in line[:40]:
+                            continue
+                        m = re.match(r'\{"t":(\d+),', line)
+                        t = int(m.group(1))
+                        mx = max(mx, t)
+                        mf.write('{"t":%d,' % (t + base) + line[m.end():])
+                base += mx
+                sp = os.path.join(d, "summary.json")
+                if os.path.exists(sp):
+                    sums.append(json.load(open(sp)))
+            mf.write('{"t":%d,"i":1,"ev":"end"}\n' % (base + 1))
+        try:
+            os.remove(binp)
+        except OSError:
+            pass
+        return rc, out, merged, sums
+
     def need_go(self, rc, out, what):
         if rc != 0:
             tail = "\n".join(out.splitlines()[-60:])
@@ -326,7 +394,8 @@ def match_known(pid, viol, known):
             continue
         if pid not in ([k["property"]] + k.get("also", [])):
             continue
-        if k["clause"] != viol["clause"]:
+        kc = k["clause"]
+        if viol["clause"] not in (kc if isinstance(kc, list) else [kc]):
             continue
         ok = True
         for fk, fv in k.get("match", {}).items():
